@@ -19,7 +19,7 @@ class RenderTimeout(Exception):
     """Layout did not finish (a C02 matter: recorded, never a C16 disagreement)."""
 
 
-def render_pdf(html, opts, timeout=25):
+def render_pdf(html, opts, timeout=10):
     """(Document, pdf bytes).  `zoom` is an argument of write_pdf, the rest are options."""
     import signal
     docs.quiet()
@@ -117,10 +117,60 @@ def structural_problem(data, document=None):
     return None
 
 
+# PDF 32000-1 Annex A: operator -> operand kinds ('n' number, 'N' name, 's' string, 'a' array, 'd' dictionary or name);
+# `None` = checked separately (scn / SCN: numbers, then an optional pattern name; sc / SC: 1-4 numbers).
+OPERANDS = {
+    'q': '', 'Q': '', 'cm': 'nnnnnn', 'w': 'n', 'J': 'n', 'j': 'n', 'M': 'n', 'd': 'an', 'ri': 'N', 'i': 'n', 'gs': 'N',
+    'm': 'nn', 'l': 'nn', 'c': 'nnnnnn', 'v': 'nnnn', 'y': 'nnnn', 'h': '', 're': 'nnnn',
+    'S': '', 's': '', 'f': '', 'F': '', 'f*': '', 'B': '', 'B*': '', 'b': '', 'b*': '', 'n': '', 'W': '', 'W*': '',
+    'BT': '', 'ET': '', 'Tc': 'n', 'Tw': 'n', 'Tz': 'n', 'TL': 'n', 'Tf': 'Nn', 'Tr': 'n', 'Ts': 'n',
+    'Td': 'nn', 'TD': 'nn', 'Tm': 'nnnnnn', 'T*': '', 'Tj': 's', 'TJ': 'a', "'": 's', '"': 'nns',
+    'd0': 'nn', 'd1': 'nnnnnn', 'CS': 'N', 'cs': 'N', 'SC': None, 'sc': None, 'SCN': None, 'scn': None,
+    'G': 'n', 'g': 'n', 'RG': 'nnn', 'rg': 'nnn', 'K': 'nnnn', 'k': 'nnnn', 'sh': 'N', 'BI': '', 'Do': 'N',
+    'MP': 'N', 'DP': 'Nd', 'BMC': 'N', 'BDC': 'Nd', 'EMC': '', 'BX': '', 'EX': ''}
+
+
+def operand_kind(value):
+    if isinstance(value, bool) or value is None:
+        return '?'
+    if isinstance(value, (int, float)):
+        return 'n'
+    if isinstance(value, pdfread.Name):
+        return 'N'
+    if isinstance(value, (bytes, pdfread.HexString)):
+        return 's'
+    if isinstance(value, list):
+        return 'a'
+    if isinstance(value, dict):
+        return 'd'
+    return '?'
+
+
+def operand_problem(op, operands):
+    """`operands of the right number and type`: the operator is a PDF content operator and its operands are what
+    Annex A says."""
+    if op not in OPERANDS:
+        return f'`{op}` is not a PDF content-stream operator'
+    kinds = ''.join(operand_kind(v) for v in operands)
+    want = OPERANDS[op]
+    if want is None:
+        numbers = kinds.rstrip('N')
+        limit = 4 if op in ('sc', 'SC') else 5
+        ok = set(numbers) <= {'n'} and len(kinds) - len(numbers) <= (0 if op in ('sc', 'SC') else 1) and (
+            1 <= len(kinds) <= limit)
+    else:
+        ok = len(kinds) == len(want) and all(k == w or (w == 'd' and k in 'dN') for k, w in zip(kinds, want))
+    return None if ok else f'`{op}` has operands {operands!r} (kinds {kinds!r}), Annex A asks for {want!r}'
+
+
 def stream_problem(ops, cats):
-    """The content-stream clauses of C16 stated directly (judge): brackets, text objects, names defined."""
+    """The content-stream clauses of C16 stated directly (judge): known operators with operands of the right number
+    and type, brackets, text objects, names defined."""
     stack = []
     for i, (op, operands) in enumerate(ops):
+        bad = operand_problem(op, operands)
+        if bad:
+            return f'operator {i}: {bad}'
         in_text = 'BT' in stack
         if op in ('q', 'BT') and in_text:
             return f'operator {i} `{op}` inside a text object'
@@ -283,7 +333,7 @@ class C16(PropCheck):
             'stacking context; what it delegates (draw_background, draw_border, draw_inline_level …) is replayed from '
             'the recording; all streams and resource dictionaries compared. non-trivial = some context has opacity < 1, '
             'a transform, a clip or a nested context')
-        n_docs = run.n(180, 2000)
+        n_docs = run.n(150, 2000)
         for i in range(n_docs):
             variant = c16docs.VARIANTS[i % len(c16docs.VARIANTS)]
             html, geo = c16docs.document(run.rng, depth=run.rng.choice([1, 2, 3]))
@@ -349,6 +399,10 @@ class C16(PropCheck):
     def judge(self, d):
         section, meta = d['section'], d.get('meta') or {}
         if section in ('document-streams', 'document-api', 'document-skeleton'):
+            # every disagreement is one document rendered again: judge the first few, the rest adds nothing
+            self._doc_judged = self.__dict__.get('_doc_judged', 0) + 1
+            if self._doc_judged > 8 and self.__dict__.get('_kinds_judged'):
+                return None
             opts = decode_options(meta['options'])
             what = document_problem(meta['html'], opts)
             if not what:
@@ -422,6 +476,7 @@ class C16(PropCheck):
     def finding_replays(self):
         replays = {name: (lambda name=name: crash_replay(name)) for name in CRASH_INPUTS}
         replays['alpha-state-stale-cache'] = alpha_state_replay
+        replays['none-component-unsupported-space'] = none_component_replay
         return replays
 
     def replay(self, data):
@@ -483,6 +538,10 @@ KNOWN_CRASHES = {
     ('ZeroDivisionError', 'clip_border_segment'): 'border-dash-zero-division',
     ('UnboundLocalError', 'columns_layout'): 'column-float-unbound-local',
     ('IndexError', '_build_vector_font_dictionary'): 'cidset-empty-font',
+    # Color.to('srgb') exists only for srgb / hsl / hwb: gradients (images.py) and 3D border styles (draw/color.py)
+    ('NotImplementedError', 'draw'): 'colour-to-srgb-not-implemented',
+    ('NotImplementedError', 'darken'): 'colour-to-srgb-not-implemented',
+    ('NotImplementedError', 'lighten'): 'colour-to-srgb-not-implemented',
 }
 
 PAGE_CSS = '<style>@page{size:100px}body{margin:0;font-size:10px}</style>'
@@ -490,6 +549,7 @@ CRASH_INPUTS = {
     'border-dash-zero-division': (
         PAGE_CSS + '<div style="border:3px dashed red;border-radius:50%;width:1px;height:1px"></div>', {}),
     'cidset-empty-font': (PAGE_CSS + '<input>', {'pdf_forms': True, 'pdf_variant': 'pdf/a-1b'}),
+    'colour-to-srgb-not-implemented': (PAGE_CSS + '<div style="border:4px groove lab(50 20 30)">a</div>', {}),
     'column-float-unbound-local': (
         '<style>@page{size:64px 80px;margin:5px}body{font-size:10px;margin:0}</style> d<table><td style="border:4px '
         'groove gray">bb cc</td></table><div style="border:3px dashed rgba(0,0,0,0.5);column-count:2"><table><td '
@@ -505,6 +565,12 @@ def crash_replay(finding_id):
     except Exception as exc:  # noqa: BLE001
         return KNOWN_CRASHES.get(crash_signature(exc)) == finding_id
     return False
+
+
+def none_component_replay():
+    """`color(display-p3 none 0 1)`: does the page stream still contain the word `None` before `rg`?"""
+    what = document_problem(PAGE_CSS + '<p style="color:color(display-p3 none 0 1)">a</p>', {'uncompressed_pdf': True})
+    return bool(what) and 'None' in what
 
 
 def alpha_state_replay():
@@ -674,6 +740,11 @@ def cache_problem(driver, meta, line=None, impl_out=None):
     return found[0]
 
 
+NUMERIC_ARITY = {'rg': 3, 'RG': 3, 'cm': 6, 're': 4, 'm': 2, 'l': 2, 'w': 1, 'J': 1, 'j': 1, 'M': 1, 'Tm': 6, 'Td': 2,
+                 'Ts': 1}
+PDF_NUMBER = __import__('re').compile(r'[+-]?(\d+\.?\d*|\.\d+)')
+
+
 def script_problem(meta, impl_out):
     """C16 clauses on the real Stream after an API-level well-bracketed script: no exception, every stream balanced,
     every name an operator uses is a key of the stream's resource dictionary."""
@@ -711,6 +782,14 @@ def script_problem(meta, impl_out):
         stack = []
         for tok in toks.split():
             op = tok.rsplit('_', 1)[-1]
+            pieces = tok.split('_')[:-1]
+            if op in NUMERIC_ARITY and (len(pieces) != NUMERIC_ARITY[op] or not all(
+                    PDF_NUMBER.fullmatch(x) for x in pieces)):
+                return f'stream {i}: `{tok}`: `{op}` takes {NUMERIC_ARITY[op]} numbers'
+            if op in ('scn', 'SCN'):
+                numbers = pieces[:-1] if pieces and pieces[-1].startswith('/') else pieces
+                if not pieces or not all(PDF_NUMBER.fullmatch(x) for x in numbers):
+                    return f'stream {i}: `{tok}`: `{op}` takes numbers and an optional pattern name'
             if op in ('q', 'BT', 'BMC', 'BDC'):
                 stack.append({'q': 'q', 'BT': 'BT'}.get(op, 'BMC'))
             elif op in ('Q', 'ET', 'EMC'):
